@@ -229,6 +229,7 @@ func (w *Writer) Delete(bs []byte) (success bool) {
 // Delete2 is same as Delete(). Additionally returns the deleted item's node
 func (w *Writer) Delete2(bs []byte) (n *skiplist.Node, success bool) {
 	if n := w.GetNode(bs); n != nil {
+		verifPoint(VpDelete2Found, unsafe.Pointer(n))
 		return n, w.DeleteNode(n)
 	}
 
@@ -244,6 +245,7 @@ func (w *Writer) DeleteNode(x *skiplist.Node) (success bool) {
 		}
 	}()
 
+	verifPoint(VpDelNodeEntry, unsafe.Pointer(x))
 	x.SetLink(nil)
 	sn := w.GetCurrSn()
 	gotItem := (*Item)(x.Item())
@@ -251,10 +253,12 @@ func (w *Writer) DeleteNode(x *skiplist.Node) (success bool) {
 		success = w.store.DeleteNode(x, w.insCmp, w.buf, &w.slSts1)
 
 		barrier := w.store.GetAccesBarrier()
+		verifPoint(VpDelNodeBeforeFlush, unsafe.Pointer(x))
 		barrier.FlushSession(unsafe.Pointer(x))
 		return
 	}
 
+	verifPoint(VpDelNodeBeforeCAS, unsafe.Pointer(x))
 	success = atomic.CompareAndSwapUint32(&gotItem.deadSn, 0, sn)
 	if success {
 		if w.gctail == nil {
@@ -567,6 +571,7 @@ func (s *Snapshot) Open() bool {
 	if atomic.LoadInt32(&s.refCount) == 0 {
 		return false
 	}
+	verifPoint(VpOpenChecked, unsafe.Pointer(s))
 	atomic.AddInt32(&s.refCount, 1)
 	return true
 }
@@ -576,6 +581,7 @@ func (s *Snapshot) Open() bool {
 // Close(). Internal garbage collector takes care of freeing the items.
 func (s *Snapshot) Close() {
 	newRefcount := atomic.AddInt32(&s.refCount, -1)
+	verifPoint(VpCloseDecremented, unsafe.Pointer(s))
 	if newRefcount == 0 {
 		buf := s.db.snapshots.MakeBuf()
 		defer s.db.snapshots.FreeBuf(buf)
@@ -583,6 +589,7 @@ func (s *Snapshot) Close() {
 		// Move from live snapshot list to dead list
 		s.db.snapshots.Delete(unsafe.Pointer(s), CompareSnapshot, buf, &s.db.snapshots.Stats)
 		s.db.gcsnapshots.Insert(unsafe.Pointer(s), CompareSnapshot, buf, &s.db.gcsnapshots.Stats)
+		verifPoint(VpCloseRetired, unsafe.Pointer(s))
 		s.db.GC()
 	}
 }
@@ -660,6 +667,7 @@ func (m *Nitro) collectionWorker(w *Writer) {
 				return
 			}
 			for n := gclist; n != nil; n = n.GetLink() {
+				verifPoint(VpWorkerBeforeUnlink, unsafe.Pointer(n))
 				w.doDeltaWrite((*Item)(n.Item()))
 				m.store.DeleteNode(n, m.insCmp, buf, &w.slSts2)
 			}
@@ -667,6 +675,7 @@ func (m *Nitro) collectionWorker(w *Writer) {
 			m.store.Stats.Merge(&w.slSts2)
 
 			barrier := m.store.GetAccesBarrier()
+			verifPoint(VpWorkerBeforeFlush, unsafe.Pointer(gclist))
 			barrier.FlushSession(unsafe.Pointer(gclist))
 		}
 	}
@@ -678,6 +687,7 @@ func (m *Nitro) freeWorker(w *Writer) {
 			dnode := n
 			n = n.GetLink()
 
+			verifPoint(VpFreeBeforeFree, unsafe.Pointer(dnode))
 			itm := (*Item)(dnode.Item())
 			m.freeItem(itm)
 			m.store.FreeNode(dnode, &w.slSts3)
@@ -708,6 +718,7 @@ func (m *Nitro) collectDead() {
 		}
 
 		atomic.StoreUint32(&m.lastGCSn, sn.sn)
+		verifPoint(VpCollectBeforeSend, unsafe.Pointer(sn))
 		m.gcchan <- sn.gclist
 		m.gcsnapshots.DeleteNode(node, CompareSnapshot, buf2, &m.gcsnapshots.Stats)
 	}
@@ -716,7 +727,9 @@ func (m *Nitro) collectDead() {
 // GC implements manual garbage collection of Nitro snapshots.
 func (m *Nitro) GC() {
 	if atomic.CompareAndSwapInt32(&m.isGCRunning, 0, 1) {
+		verifPoint(VpGCEntered, nil)
 		m.collectDead()
+		verifPoint(VpGCLeaving, nil)
 		atomic.CompareAndSwapInt32(&m.isGCRunning, 1, 0)
 	}
 }
@@ -979,13 +992,17 @@ func (m *Nitro) StoreToDisk(dir string, snap *Snapshot, concurr int, itmCallback
 		defer func() {
 			if err = m.changeDeltaWrState(dwStateTerminate, nil, nil); err == nil {
 				bs, _ := json.Marshal(deltaFiles)
+				verifPathPoint(VpStoreBeforeManifest, filepath.Join(deltadir, "files.json"))
 				err = ioutil.WriteFile(filepath.Join(deltadir, "files.json"), bs, 0660)
+				verifPathPoint(VpStoreAfterManifest, filepath.Join(deltadir, "files.json"))
 				if err == nil {
 					for id, dwr := range deltaWriters {
 						deltaChecksums[id] = dwr.Checksum()
 					}
 					bs, _ = json.Marshal(deltaChecksums)
+					verifPathPoint(VpStoreBeforeManifest, filepath.Join(deltadir, "checksums.json"))
 					err = ioutil.WriteFile(filepath.Join(deltadir, "checksums.json"), bs, 0660)
+					verifPathPoint(VpStoreAfterManifest, filepath.Join(deltadir, "checksums.json"))
 				}
 			}
 		}()
@@ -1009,20 +1026,27 @@ func (m *Nitro) StoreToDisk(dir string, snap *Snapshot, concurr int, itmCallback
 	}
 
 	manifest, _ := json.Marshal(map[string]interface{}{"version": version})
+	verifPathPoint(VpStoreBeforeManifest, filepath.Join(manifestdir, "nitro.json"))
 	if err = ioutil.WriteFile(filepath.Join(manifestdir, "nitro.json"), manifest, 0660); err == nil {
+		verifPathPoint(VpStoreAfterManifest, filepath.Join(manifestdir, "nitro.json"))
 		if err = m.Visitor(snap, visitorCallback, shards, concurr); err == nil {
 			bs, _ := json.Marshal(files)
+			verifPathPoint(VpStoreBeforeManifest, filepath.Join(datadir, "files.json"))
 			err = ioutil.WriteFile(filepath.Join(datadir, "files.json"), bs, 0660)
+			verifPathPoint(VpStoreAfterManifest, filepath.Join(datadir, "files.json"))
 			if err == nil {
 				for id, wr := range writers {
 					checksums[id] = wr.Checksum()
 				}
 				bs, _ = json.Marshal(checksums)
+				verifPathPoint(VpStoreBeforeManifest, filepath.Join(datadir, "checksums.json"))
 				err = ioutil.WriteFile(filepath.Join(datadir, "checksums.json"), bs, 0660)
+				verifPathPoint(VpStoreAfterManifest, filepath.Join(datadir, "checksums.json"))
 			}
 		}
 	}
 
+	verifPoint(VpStoreReturning, nil)
 	return err
 }
 
